@@ -431,15 +431,22 @@ impl Context {
             }
         }
 
+        // the process fails with its root task: the error is set before the root's event, whose
+        // store write is the last one that brings the process row up to date
+        if let NodeContent::Workflow(_) = &task.node().content {
+            if task.state().is_completed() {
+                if let Some(err) = task.err() {
+                    self.proc.set_err(&err);
+                }
+            }
+        }
+
         self.runtime.scher().emit_task_event(task)?;
 
         // on workflow complete
         if let NodeContent::Workflow(_) = &task.node().content {
             if task.state().is_completed() {
                 self.proc.set_state(task.state());
-                if let Some(err) = task.err() {
-                    self.proc.set_err(&err);
-                }
                 self.runtime.scher().emit_proc_event(&self.proc);
             }
         }
